@@ -4,3 +4,5 @@ import Desert.Props.C05
 #print axioms C05.invariant_preserved
 #print axioms C05.cursors_in_bounds
 #print axioms C05.valid_encodings_never_panic
+#print axioms C05.decode_never_panics
+#print axioms C05.decode_never_panics_frame
